@@ -5,7 +5,7 @@
 From LB Require Import Base.Prelude Log.TailWait.
 Open Scope Z_scope.
 
-Inductive tact := AAppend | ARollAppend | ATrunc (k : Z).
+Inductive tact := AAppend | ARollAppend | ARoll | ATrunc (k : Z).
 Inductive tend := EParked | EHeld | ESpin | ELost.
 
 Definition tend_eqb (a b : tend) : bool :=
@@ -15,6 +15,7 @@ Definition act_labels (a : tact) : list tlabel :=
   match a with
   | AAppend => [TAppend]
   | ARollAppend => [TRollNew; TSeal; TAppend]
+  | ARoll => [TRollNew; TSeal]
   | ATrunc k => [TTruncCopy k]
   end.
 
